@@ -1,15 +1,17 @@
 CFG = {
-        "gen": ["StoreConst"],
-        "props": ["EraVerif.Props.C08"],
+        "gen": ["StoreConst", "StoreFns"],
+        "props": ["EraVerif.Props.C08", "EraVerif.Props.C08gen"],
         "required_theorems": ["verified_iff", "only_verified_enter", "submit_parks_iff", "peer_guard",
                               "cache_contiguous_and_tail", "ranges_ordered", "push_only_at_next",
                               "refines_append_only_chain", "no_substitution", "truncate_only_persisted",
                               "cached_block_stable", "next_monotone", "handoff_gap_free", "handoff_single_task",
                               "handed_increasing", "storage_never_sees_gap", "available_is_readable", "get_spec",
-                              "cache_bound", "regress_rejected", "restart_from_durable", "reachable_closed"],
+                              "cache_bound", "regress_rejected", "restart_from_durable", "reachable_closed", "gen_next_eq", "gen_contains_eq", "gen_verify_ok_iff",
+                              "gen_truncate_eq", "gen_try_push_eq", "gen_update_persisted_eq"],
         "technique": "Lean 4: inductive invariant of a labelled transition system transcribed from block_store.rs / "
                      "manager.rs (one event per critical section), proved for all event lists; CACHE_CAPACITY "
-                     "regenerated from block_store.rs (translator); differential run of the real EngineManager "
+                     "and the bodies of BlockStoreState::{next,contains,head,verify} / BlockStore::{try_push,update_persisted,truncate_cache} "
+                     "regenerated from block_store.rs (statement translator tools/translate_store.py) and proved equal to the model's definitions (Props/C08gen); differential run of the real EngineManager "
                      "against the model through the public API + property monitors on the implementation",
         "level_text": "Proof (model): for every state reachable by any interleaving of queue_block calls from consensus / "
                       "peers / API (valid, invalid, duplicated, conflicting, out of order), try_push critical sections in "
@@ -28,8 +30,10 @@ CFG = {
                       "a restart rebuilds the store from the durable state only. Correspondence: the real EngineManager "
                       "(public API, real signatures, harness-controlled EngineInterface) agrees with the model on every "
                       "generated operation, and the property monitors find no violation on the implementation.",
-        "level_note": "Proved for the model, tied to the code by the differential run (not by translation) except "
-                      "CACHE_CAPACITY. Partial / assumed: (1) tokio scheduling is not modelled — the sequential families "
+        "level_note": "Proved for the model, tied to the code by the differential run and, for block_store.rs (the cache / "
+                      "range bookkeeping: try_push, update_persisted, truncate_cache, next, contains, head, verify and "
+                      "CACHE_CAPACITY), by translation: the regenerated programs are proved equal to the model's definitions on "
+                      "every run (numbers below u64::MAX). manager.rs is tied by the differential run only. Partial / assumed: (1) tokio scheduling is not modelled — the sequential families "
                       "run the real tasks to quiescence on a single-threaded runtime after every op, the `mt` family "
                       "runs 8 submitter tasks + a side channel in parallel on a multi-threaded runtime and compares the "
                       "(order-independent) final state; the theorems cover every order of the critical sections; cases "
